@@ -1,4 +1,5 @@
 import Zstd.Proofs.EncContracts
+import Zstd.Model.EncCoders
 /-
 C02 — compress then decompress returns the input, and the frame is valid Zstandard.
 
@@ -12,22 +13,22 @@ compressor object (so: any history of frames pushed through it, including frames
 Uncompressed level), and — for the general statements — any matcher script.
 -/
 namespace Zstd.Props.C02
-open Zstd Zstd.Model.Enc Zstd.Proofs.Enc
+open Zstd Zstd.Model Zstd.Model.Enc Zstd.Proofs.Enc
 
-/-- the spaces the matcher hands out are non-empty and respect Block_Maximum_Size of the window the
-header declares -/
-def GoodSpaces (w : Nat) (script : Nat → MBlock) : Prop :=
-  ∀ i, 0 < (script i).space ∧ (script i).space ≤ min (declaredWindow w) Gen.maxBlockSize
+/-- the spaces the matcher hands out are non-empty and at most 128 KiB (the trait's documented
+maximum).  Since the repair of F13 the declared window is at least 128 KiB whatever
+`window_size()` says, so nothing relates the spaces to the window any more. -/
+def GoodSpaces (script : Nat → MBlock) : Prop :=
+  ∀ i, 0 < (script i).space ∧ (script i).space ≤ Gen.maxBlockSize
 
 theorem builtin_window_le : builtinWindow ≤ 2 ^ 41 := by decide
 theorem builtin_declared : declaredWindow builtinWindow = 131072 := by decide +kernel
-theorem builtin_good_spaces (parse : Nat → Parse) : GoodSpaces builtinWindow (builtinScript parse) := by
+theorem builtin_good_spaces (parse : Nat → Parse) : GoodSpaces (builtinScript parse) := by
   intro i
-  rw [builtin_declared]
   refine ⟨?_, ?_⟩
   · show 0 < Gen.prodSliceSize
     decide
-  · show Gen.prodSliceSize ≤ min 131072 Gen.maxBlockSize
+  · show Gen.prodSliceSize ≤ Gen.maxBlockSize
     decide
 
 /-- **Uncompressed level, any matcher with good spaces**: `compress` does not panic and the frame
@@ -36,7 +37,7 @@ exact multiples of the space size (extra empty last block), multi-block inputs, 
 any prior state of the compressor object. -/
 theorem compress_uncompressed_roundtrip_any_matcher {H : Type} (hash : Bool) (enc : BlockEnc H)
     (c : Compressor H) (hc : c.level = .uncompressed) (w : Nat) (script : Nat → MBlock)
-    (hw : w ≤ 2 ^ 41) (hsp : GoodSpaces w script) (data : List Byte) (frags : List Nat) :
+    (hw : w ≤ 2 ^ 41) (hsp : GoodSpaces script) (data : List Byte) (frags : List Nat) :
     ∃ frame c', compressFrame hash enc c w script data frags = .ok (frame, c') ∧
       Spec.decodeFrame frame = some (specResult hash w data frame) := by
   have hspace : ∀ i, 0 < (script i).space := fun i => (hsp i).1
@@ -53,6 +54,7 @@ theorem compress_uncompressed_roundtrip_any_matcher {H : Type} (hash : Bool) (en
     (fun _ blk _ => blk.length ≤ min (declaredWindow w) Gen.maxBlockSize) hw hspace
     (by rw [hc]; exact emit_uncompressed_decodes _ _ enc) (fun _ => trivial) _ frame c' hrun
   intro i _
+  rw [min_declared_block w hw]
   exact Nat.le_trans (List.length_take_le _ _) (hsp i).2
 
 /-- **C02, Uncompressed level, built-in matcher** (`compress`, `compress_to_vec`,
@@ -65,8 +67,15 @@ theorem compress_uncompressed_roundtrip {H : Type} (hash : Bool) (enc : BlockEnc
   compress_uncompressed_roundtrip_any_matcher hash enc c hc builtinWindow (builtinScript parse)
     builtin_window_le (builtin_good_spaces parse) data frags
 
-/-- **A reused compressor emits the same bytes as a fresh one** (matcher reset, `last_huff_table :=
-None`, hasher re-seeded): for EVERY state `c` of the object, every level and block encoder. -/
+/-- **A reused compressor emits the same bytes as a fresh one, given the same matcher behaviour**
+(`last_huff_table := None`, hasher re-seeded, matcher asked from its first space again): for EVERY
+state `c` of the object, every level and block encoder.  The matcher's behaviour after `reset()` is
+the parameter `script`.  For the BUILT-IN matcher that behaviour is NOT history independent at the
+byte level: `MatchGeneratorDriver::reset` recycles suffix stores, a recycled store can be larger than
+a fresh one, hash collisions differ, and so do the parses (observed by the byte-identical
+correspondence: a reused compressor emitted 1455 bytes where a fresh one emits 1454).  Correctness
+is not affected — the round-trip theorems hold for every valid script — and the correspondence run
+threads the matcher model (`builtinFrame`) through the frames of a history. -/
 theorem compress_reuse_independent {H : Type} (hash : Bool) (enc : BlockEnc H) (c : Compressor H)
     (w : Nat) (script : Nat → MBlock) (data : List Byte) (frags : List Nat) :
     (compressFrame hash enc c w script data frags).map (·.1) = compress hash enc c.level w script data frags := by
@@ -111,27 +120,44 @@ theorem compress_fastest_roundtrip_partial {H : Type} (R : H → Spec.Huffman.Ta
     (FastPre w (declaredWindow w)) hm.window_le hm.space_pos
     (by rw [hc]; exact emit_fastest_decodes R w _ enc henc) (fun st => tracks_none R st {}) _ frame c' hrun
   intro i _
-  exact ⟨Nat.le_trans (List.length_take_le _ _) (hm.space_le i), hm.parse_ok i⟩
+  exact ⟨by rw [min_declared_block w hm.window_le]; exact Nat.le_trans (List.length_take_le _ _) (hm.space_le i), hm.parse_ok i⟩
 
-/-- C02 at full strength for `Fastest` with the real block encoder `compressBlock cd` and the built-in
-matcher.  NOT proved here: it needs (1) the entropy coders' correctness `BlockEncCorrect` for
-`compressBlock cd` (C16 over C12/C13), (2) `ValidMatcher` for the built-in matcher's script (C17),
-(3) no panic of the entropy coders on that matcher's parses (F4/F10 are unreachable with it: C17). -/
+/-- C02 at full strength for `Fastest`, now a CLOSED statement: the real block encoder
+(`compressBlockReal` = `compressBlock` over the merged FSE / Huffman models) and the real built-in
+matcher in any state `d` (`builtinFrame`, the merged C17 model driven as `compress_fastest` drives
+it).  The executable model of exactly this statement is compared byte for byte with the code on
+every run.  NOT proved: it needs (1) `BlockEncCorrect` for `compressBlockReal` (Huffman / FSE
+encode → strict Spec decode: `encode_decode_*_full` of C12 / C13 are open), (2) `ValidMatcher` for
+the script `builtinFrame` computes (C17: `replay_reconstructs_block`, `prod_offset_le`, lifted to the
+block loop), (3) no fault of the coders on those parses. -/
 def compress_fastest_roundtrip_full : Prop :=
-  ∀ {H : Type} (cd : Coders H) (hash : Bool) (builtinParse : List Byte → Nat → Parse)
-    (c : Compressor H), c.level = .fastest → ∀ (data : List Byte) (frags : List Nat),
-    ∃ frame c', compressFrame hash (compressBlock cd) c builtinWindow (builtinScript (builtinParse data)) data frags
+  ∀ (hash : Bool) (d : MG.Driver) (c : Compressor Huf.EncTable), c.level = .fastest →
+    ∀ (data : List Byte) (frags : List Nat),
+    ∃ d' arr frame c', builtinFrame .fastest d data = .ok (d', arr) ∧
+      compressFrame hash compressBlockReal c builtinWindow (scriptOfArray arr Gen.prodSliceSize) data frags
         = .ok (frame, c') ∧
       Spec.decodeFrame frame = some (specResult hash builtinWindow data frame)
+
+/-- the closed statement follows from the three named obligations (nothing else is missing) -/
+theorem compress_fastest_roundtrip_full_of (R : Huf.EncTable → Spec.Huffman.Table → Prop)
+    (henc : BlockEncCorrect R builtinWindow (declaredWindow builtinWindow) compressBlockReal)
+    (hmatcher : ∀ (d : MG.Driver) (data : List Byte), ∃ d' arr, builtinFrame .fastest d data = .ok (d', arr) ∧
+      ValidMatcher builtinWindow (scriptOfArray arr Gen.prodSliceSize) data ∧
+      ∀ i st, ∃ r, compressBlockReal (scriptOfArray arr Gen.prodSliceSize i).parse st = .ok r) :
+    compress_fastest_roundtrip_full := by
+  intro hash d c hc data frags
+  obtain ⟨d', arr, hf, hv, ht⟩ := hmatcher d data
+  obtain ⟨frame, c', h1, h2⟩ := compress_fastest_roundtrip_partial R hash compressBlockReal c hc builtinWindow _ data frags hv henc ht
+  exact ⟨d', arr, frame, c', hf, h1, h2⟩
 
 /-- unimplemented levels: an empty input is framed before the level is looked at (no panic, valid
 frame of the empty string) … -/
 theorem unimplemented_level_empty_input {H : Type} (hash : Bool) (enc : BlockEnc H) (c : Compressor H)
-    (w : Nat) (script : Nat → MBlock) (hw : w ≤ 2 ^ 41) (hsp : GoodSpaces w script) (frags : List Nat) :
+    (w : Nat) (script : Nat → MBlock) (hw : w ≤ 2 ^ 41) (hsp : GoodSpaces script) (frags : List Nat) :
     ∃ frame c', compressFrame hash enc c w script [] frags = .ok (frame, c') ∧
       Spec.decodeFrame frame = some (specResult hash w [] frame) := by
   have hspace : ∀ i, 0 < (script i).space := fun i => (hsp i).1
-  obtain ⟨e, _, _, hwd, _⟩ := windowDescriptor_spec w hw
+  obtain ⟨e, _, _, hwd, _, _⟩ := headerDescriptor_spec w hw
   obtain ⟨frags', hs⟩ := compressLoop_step (emitBlock c.level enc) script 0 0 ({ c.st with lastHuff := none }) [] [] frags (hspace 0)
   have hrun : ∃ frame c', compressFrame hash enc c w script [] frags = .ok (frame, c') := by
     unfold compressFrame
@@ -148,11 +174,11 @@ theorem unimplemented_level_empty_input {H : Type} (hash : Bool) (enc : BlockEnc
 /-- … and any other input panics with `unimplemented!()` -/
 theorem unimplemented_level_panics {H : Type} (hash : Bool) (enc : BlockEnc H) (c : Compressor H)
     (hc : c.level ≠ .uncompressed ∧ c.level ≠ .fastest)
-    (w : Nat) (script : Nat → MBlock) (hw : w ≤ 2 ^ 41) (hsp : GoodSpaces w script)
+    (w : Nat) (script : Nat → MBlock) (hw : w ≤ 2 ^ 41) (hsp : GoodSpaces script)
     (data : List Byte) (hd : data ≠ []) (frags : List Nat) :
     compressFrame hash enc c w script data frags = .error (.unimplemented "frame_compressor.rs:compress:level") := by
   have hspace : ∀ i, 0 < (script i).space := fun i => (hsp i).1
-  obtain ⟨e, _, _, hwd, _⟩ := windowDescriptor_spec w hw
+  obtain ⟨e, _, _, hwd, _, _⟩ := headerDescriptor_spec w hw
   obtain ⟨frags', hs⟩ := compressLoop_step (emitBlock c.level enc) script data.length 0 ({ c.st with lastHuff := none }) [] data frags (hspace 0)
   have hne : (data.take (script 0).space).isEmpty = false := by
     cases data with
@@ -178,7 +204,7 @@ theorem unimplemented_level_panics {H : Type} (hash : Bool) (enc : BlockEnc H) (
 the Uncompressed level, decoded by the strict Spec -/
 example :
     (compress (H := Unit) true (fun _ st => .ok ([], st)) .uncompressed 4096 (fun _ => ⟨4, {}⟩) [1, 2, 3, 4, 5, 6] [1, 3]).toOption
-      = some [40, 181, 47, 253, 4, 16, 32, 0, 0, 1, 2, 3, 4, 17, 0, 0, 5, 6, 156, 208, 232, 69] := by
+      = some [40, 181, 47, 253, 4, 56, 32, 0, 0, 1, 2, 3, 4, 17, 0, 0, 5, 6, 156, 208, 232, 69] := by
   decide +kernel
 
 end Zstd.Props.C02
